@@ -253,9 +253,12 @@ def load(repo):
     defined = _toplevel_function_names(text)
     if 'parse_sentence' in decls:
         for n in decls['parse_sentence'].walk():
-            if n.kind == 'DeclRefExpr' and n.refkind == 'FunctionDecl' and n.ref and n.ref not in known and not n.ref.startswith('operator'):
-                if n.ref in defined:
+            if n.kind == 'DeclRefExpr' and n.refkind == 'FunctionDecl' and n.ref and not n.ref.startswith('operator') and n.ref in defined:
+                if n.ref not in known:
                     called.add(n.ref)
+                elif n.ref in decls and decls[n.ref].kind == 'FunctionDecl' and any(k.kind == 'CompoundStmt' for k in decls[n.ref].kids) \
+                        and n.ref not in ('parse_sentence', 'compute_outside_probabilities'):
+                    decls['fn:' + n.ref] = decls[n.ref]      # a helper at namespace scope, already captured by the namespace filter
     for name in sorted(called):
         for doc in _split_docs(_run_clang(repo.root, name)):
             n = _convert(doc, _LineTracker())
